@@ -13,6 +13,7 @@ from agilerl.algorithms.neural_ts_bandit import NeuralTS
 from agilerl.algorithms.neural_ucb_bandit import NeuralUCB
 
 from ..core import HarnessError
+from ..rand import seeded
 from . import c14_common as cm
 
 ALGOS = {"NeuralUCB": NeuralUCB, "NeuralTS": NeuralTS}
@@ -62,8 +63,7 @@ def build(algo, n, kind, gamma, identity):
     nc = cm.net_config(kind)
     nc["head_config"] = {"hidden_size": [4], "layer_norm": False}
     osp = CTX if identity else cm.obs_space(kind)
-    with torch.random.fork_rng():
-        torch.manual_seed(0)
+    with seeded(0):
         ag = ALGOS[algo](osp, spaces.Discrete(n), net_config=nc, gamma=gamma, lamb=1.0)
     if identity:
         sd = dict(ag.actor.named_parameters())
